@@ -117,4 +117,89 @@ Section Mirror.
       + destruct D as [g2 [-> Cg2]]. cbn [dir_join]. exists (modrs_header ++ g2). split; [exact P2|]. now apply contains_app_r.
       + destruct D as [_ [modrs2 [Pm Cm]]]. exists modrs2. split; [apply P1; exact Pm|exact Cm].
   Qed.
+  (* ---- the converse: nothing else is generated ---- *)
+  (* where a directory sits *)
+  Inductive dir_at : list (bytes * node) -> list bytes -> bytes -> list (bytes * node) -> Prop :=
+  | dir_here es d sub : In (d, Dir sub) es -> utf8_valid d = true -> dir_at es [] d sub
+  | dir_below es d0 sub0 ds d sub : In (d0, Dir sub0) es -> utf8_valid d0 = true ->
+      dir_at sub0 ds d sub -> dir_at es (d0 :: ds) d sub.
+
+  (* a planned write is the function of a template file, or the mod.rs of a directory *)
+  Definition origin (es : list (bytes * node)) (outdir : bytes) (pc : bytes * bytes) : Prop :=
+    (exists ds filename content s, at_path es ds filename content /\ utf8_valid filename = true /\
+       In s template_suffixes /\ ends_with filename s = true /\
+       fst pc = tfile (dir_join outdir ds) (suffix_name filename s) /\
+       compile (suffix_name filename s) content = Accepted (snd pc)) \/
+    (exists ds d sub, dir_at es ds d sub /\ fst pc = pjoin (dir_join outdir (ds ++ [d])) (b "mod.rs")).
+
+  Lemma suffix_loop_origin ss : forall w f indir outdir filename content w' f',
+    suffix_loop uni_esc compile w f indir outdir filename content ss = BOk _ (w', f') ->
+    forall pc, In pc (plan w') -> In pc (plan w) \/
+      exists s, In s ss /\ ends_with filename s = true /\ fst pc = tfile outdir (suffix_name filename s) /\
+                compile (suffix_name filename s) content = Accepted (snd pc).
+  Proof.
+    induction ss as [|s ss IH]; intros w f indir outdir filename content w' f' H pc I.
+    - cbn in H. inversion H; subst. now left.
+    - cbn [suffix_loop] in H. destruct (ends_with filename s) eqn:E.
+      + cbv zeta in H. unfold handle_template in H.
+        destruct (compile (suffix_name filename s) content) as [code|diag| |] eqn:C; try discriminate.
+        * destruct (IH _ _ _ _ _ _ _ _ H pc I) as [J|[s' [I' R]]].
+          -- cbn [plan write_if_changed announce_read note_read say] in J. apply in_app_iff in J. destruct J as [J|[J|[]]]; [now left|].
+             right. exists s. subst pc. cbn [fst snd]. split; [now left|]. split; [exact E|]. split; [reflexivity|exact C].
+          -- right. exists s'. split; [now right|exact R].
+        * destruct (IH _ _ _ _ _ _ _ _ H pc I) as [J|[s' [I' R]]].
+          -- left. exact J.
+          -- right. exists s'. split; [now right|exact R].
+      + destruct (IH _ _ _ _ _ _ _ _ H pc I) as [J|[s' [I' R]]]; [now left|]. right. exists s'. split; [now right|exact R].
+  Qed.
+
+  Lemma origin_in_sub es d sub outdir pc : In (d, Dir sub) es -> utf8_valid d = true ->
+    origin sub (pjoin outdir d) pc -> origin es outdir pc.
+  Proof.
+    intros I V [[ds [fn [c [s [A R]]]]]|[ds [d1 [sub1 [A R]]]]].
+    - left. exists (d :: ds), fn, c, s. split; [now apply (at_sub es d sub)|exact R].
+    - right. exists (d :: ds), d1, sub1. split; [now apply (dir_below es d sub)|exact R].
+  Qed.
+  Lemma origin_tail e es outdir pc : origin es outdir pc -> origin (e :: es) outdir pc.
+  Proof.
+    assert (AP : forall ds fn c, at_path es ds fn c -> at_path (e :: es) ds fn c).
+    { intros ds fn c A. inversion A; subst; [apply at_here; now right|eapply at_sub; [right; eassumption|assumption|assumption]]. }
+    assert (DP : forall ds d sub, dir_at es ds d sub -> dir_at (e :: es) ds d sub).
+    { intros ds d sub A. inversion A; subst; [apply dir_here; [now right|assumption]|eapply dir_below; [right; eassumption|assumption|assumption]]. }
+    intros [[ds [fn [c [s [A R]]]]]|[ds [d1 [sub1 [A R]]]]].
+    - left. exists ds, fn, c, s. split; [now apply AP|exact R].
+    - right. exists ds, d1, sub1. split; [now apply DP|exact R].
+  Qed.
+
+  Lemma loop_origin rec
+    (Hrec : forall w f indir outdir sub w' f', rec w f indir outdir sub = BOk _ (w', f') ->
+            forall pc, In pc (plan w') -> In pc (plan w) \/ origin sub outdir pc) :
+    forall es w f indir outdir w' f', entries_loop uni_esc compile rec w f indir outdir es = BOk _ (w', f') ->
+    forall pc, In pc (plan w') -> In pc (plan w) \/ origin es outdir pc.
+  Proof.
+    induction es as [|[filename [content|sub]] rest IH]; intros w f indir outdir w' f' H pc I.
+    - cbn in H. inversion H; subst. now left.
+    - cbn [entries_loop] in H. destruct (utf8_valid filename) eqn:V.
+      + destruct (suffix_loop uni_esc compile w f indir outdir filename content template_suffixes) as [[w1 f1]| |] eqn:S; try discriminate.
+        destruct (IH _ _ _ _ _ _ H pc I) as [J|J]; [|right; now apply origin_tail].
+        destruct (suffix_loop_origin _ _ _ _ _ _ _ _ _ S pc J) as [K|[s [Is [E [P C]]]]]; [now left|].
+        right. left. exists [], filename, content, s. cbn [dir_join]. split; [apply at_here; now left|]. tauto.
+      + destruct (IH _ _ _ _ _ _ H pc I) as [J|J]; [now left|right; now apply origin_tail].
+    - cbn [entries_loop] in H. destruct (utf8_valid filename) eqn:V.
+      + destruct (rec (announce_read w (indir ++ [47%N] ++ filename)) modrs_header (indir ++ [47%N] ++ filename) (pjoin outdir filename) sub) as [[w2 modrs]| |] eqn:R; try discriminate.
+        destruct (IH _ _ _ _ _ _ H pc I) as [J|J]; [|right; now apply origin_tail].
+        cbn [plan write_if_changed] in J. apply in_app_iff in J. destruct J as [J|[J|[]]].
+        * destruct (Hrec _ _ _ _ _ _ _ R pc J) as [K|K]; [now left|].
+          right. apply (origin_in_sub _ filename sub); [now left|exact V|exact K].
+        * right. right. exists [], filename, sub. subst pc. cbn [fst app dir_join]. split; [apply dir_here; [now left|exact V]|reflexivity].
+      + destruct (IH _ _ _ _ _ _ H pc I) as [J|J]; [now left|right; now apply origin_tail].
+  Qed.
+
+  Theorem tree_mirror_converse_lemma fuel : forall w f indir outdir es w' f',
+    HE fuel w f indir outdir es = BOk _ (w', f') ->
+    forall pc, In pc (plan w') -> In pc (plan w) \/ origin es outdir pc.
+  Proof.
+    induction fuel as [|n IH]; intros w f indir outdir es w' f' H; [discriminate|].
+    cbn [handle_entries] in H. exact (loop_origin (HE n) IH es w f indir outdir w' f' H).
+  Qed.
 End Mirror.
